@@ -26,8 +26,14 @@ Definition sb_nbytes (n : N) : N := (N.size n + 7) / 8.
 (* "T#f" *)
 Definition sb_join (t f : sb_name) : sb_name := N.shiftl (t * 256 + 35) (8 * sb_nbytes f) + f.
 
+(* A sandbox guard that carries a FURTHER condition (`if (frame.Sandboxed && <cond>) throw`) is not a guard, unless the
+   model understands the condition.  The one kind of condition it understands: a flag of the node that says "this
+   SetExpression is a direct member of a dictionary literal" (the parser ran BindToScope(.., ScopeThis) over it). *)
+Inductive sb_gcond := SbGcUnlessMember | SbGcIfMember.
+
 Record sb_facts := {
-  sbf_exprs : list (sb_name * bool);          (* class -> DoEvaluate begins with the sandbox guard *)
+  sbf_exprs : list (sb_name * bool);          (* class -> DoEvaluate begins with the UNCONDITIONAL sandbox guard `if (frame.Sandboxed) throw` *)
+  sbf_cond_guards : list (sb_name * sb_gcond);(* class -> DoEvaluate begins with a sandbox guard with a further condition the model understands *)
   sbf_funcs : list (sb_name * bool);          (* registered function -> side-effect-free *)
   sbf_cbguards : list (sb_name * bool);       (* native invoking a Function argument -> tests it first *)
   sbf_hidden : list (sb_name * sb_name);      (* (type, field) no_user_view *)
@@ -66,7 +72,9 @@ Inductive sb_expr :=
 | SbFunctionCall (f : sb_expr) (args : list sb_expr)
 | SbArray (es : list sb_expr)
 | SbDict (inline : bool) (es : list sb_expr)
-| SbSet (combined : bool) (lhs rhs : sb_expr)
+| SbSet (member : bool) (combined : bool) (lhs rhs : sb_expr)
+    (* member: the node is a direct member of a dictionary literal - BindToScope(.., ScopeThis) has visited it, see
+       [sb_bind_scope]; combined: `+=`, `-=`, ... (the old value is read first) *)
 | SbSetConst (n : sb_name) (e : sb_expr)
 | SbConditional (c t : sb_expr) (f : option sb_expr)
 | SbWhile (c body : sb_expr)
@@ -171,7 +179,7 @@ Definition sb_class_name (e : sb_expr) : sb_name :=
   | SbLogicalNegate _ => sb_n_LogicalNegate | SbBinary op _ _ => sb_binop_name op
   | SbIn _ _ => sb_n_In | SbNotIn _ _ => sb_n_NotIn | SbLogicalAnd _ _ => sb_n_LogicalAnd
   | SbLogicalOr _ _ => sb_n_LogicalOr | SbFunctionCall _ _ => sb_n_FunctionCall | SbArray _ => sb_n_Array
-  | SbDict _ _ => sb_n_Dict | SbSet _ _ _ => sb_n_Set | SbSetConst _ _ => sb_n_SetConst
+  | SbDict _ _ => sb_n_Dict | SbSet _ _ _ _ => sb_n_Set | SbSetConst _ _ => sb_n_SetConst
   | SbConditional _ _ _ => sb_n_Conditional | SbWhile _ _ => sb_n_While | SbReturn _ => sb_n_Return
   | SbBreak => sb_n_Break | SbContinue => sb_n_Continue | SbIndexer _ _ => sb_n_Indexer
   | SbThrow _ => sb_n_Throw | SbImport _ _ => sb_n_Import
@@ -194,6 +202,29 @@ Definition sb_known_classes : list sb_name :=
    component, or - For - frame.Locals, which the console handler shares between the requests of a session *)
 Definition sb_writer_classes : list sb_name :=
   [sb_n_Set; sb_n_SetConst; sb_n_Apply; sb_n_Object; sb_n_Include; sb_n_For].
+
+(* icinga::BindToScope (expression.cpp), as the parser applies it: a DictExpression hands it to its members, a SetExpression
+   to its left-hand side, an IndexerExpression to its first operand; a string literal or a bare identifier at the ROOT of
+   the left-hand side is rebased onto the scope (`x` -> `this.x`).  Any other root - `globals`, `locals`, `this`, a call,
+   an array literal, a dereference - is left as it is.  [SbScopeThis] marks the SetExpression as a dictionary member. *)
+Definition sb_scope_is_this (sc : sb_scope) : bool := match sc with SbScopeThis => true | _ => false end.
+Fixpoint sb_bind_scope (sc : sb_scope) (e : sb_expr) : sb_expr :=
+  match e with
+  | SbDict inline es => SbDict inline (map (sb_bind_scope sc) es)
+  | SbSet m c lhs rhs => SbSet (m || sb_scope_is_this sc) c (sb_bind_scope sc lhs) rhs
+  | SbIndexer a b => SbIndexer (sb_bind_scope sc a) b
+  | SbLiteral (SbLStr s) => SbIndexer (SbGetScope sc) (SbLiteral (SbLStr s))
+  | SbVariable n _ => SbIndexer (SbGetScope sc) (SbLiteral (SbLStr n))
+  | _ => e
+  end.
+(* config_parser.yy, rterm_dict: `{ <statements> }` used as a value *)
+Definition sb_parse_dict (members : list sb_expr) : sb_expr := sb_bind_scope SbScopeThis (SbDict false members).
+(* `var <lhs> = <rhs>`: BindToScope(lhs, ScopeLocal) *)
+Definition sb_parse_var (combined : bool) (lhs rhs : sb_expr) : sb_expr :=
+  SbSet false combined (sb_bind_scope SbScopeLocal lhs) rhs.
+(* the root of a left-hand side: what GetReference finally resolves *)
+Fixpoint sb_lhs_root (e : sb_expr) : sb_expr :=
+  match e with SbIndexer a _ => sb_lhs_root a | _ => e end.
 
 (* ------------------------------------------------------------------ values, store *)
 Inductive sb_oref := SbShared (i : nat) | SbLocal (i : nat).
@@ -597,7 +628,18 @@ Section SbStep.
     | _ => sb_ret None
     end.
 
-  Definition sb_guarded (e : sb_expr) : bool := sb_lookupb (sb_class_name e) (sbf_exprs F).
+  (* the further condition of a conditional guard, evaluated on the node *)
+  Definition sb_cond_fires (e : sb_expr) : bool :=
+    match e with
+    | SbSet member _ _ _ =>
+        match sb_assoc sb_n_Set (sbf_cond_guards F) with
+        | Some SbGcUnlessMember => negb member
+        | Some SbGcIfMember => member
+        | None => false
+        end
+    | _ => false
+    end.
+  Definition sb_guarded (e : sb_expr) : bool := sb_lookupb (sb_class_name e) (sbf_exprs F) || sb_cond_fires e.
 
   Definition sb_sub_frame (fr : sb_frame) (self : sb_val) (locals : option sb_val) : sb_frame :=
     {| sbfr_sandboxed := sb_inherit F fr; sbfr_top := sb_inherit F fr; sbfr_self := self; sbfr_locals := locals |}.
@@ -655,7 +697,7 @@ Section SbStep.
         sb_seq {| sbfr_sandboxed := sbfr_sandboxed fr; sbfr_top := sbfr_top fr; sbfr_self := d;
                   sbfr_locals := sbfr_locals fr |} es SbVEmpty ;;;
         sb_ret d
-    | SbSet combined lhs rhs =>
+    | SbSet _ combined lhs rhs =>
         r <- sb_getref fr true lhs ;;
         match r with
         | None => sb_fail SbEOther
